@@ -574,6 +574,18 @@ fn class_of(p: &dyn Prop, sc: &Scenario) -> Result<Option<(String, String)>, Str
     Ok(e.violation.map(|v| (v.class, v.detail)))
 }
 
+/// Code under test that is itself nondeterministic (e.g. a change that renders on real threads) may not fail on
+/// every execution of the same scenario. Re-execute up to `tries` times; the first failure counts. For
+/// deterministic code the first execution already decides and nothing is repeated on the failing path.
+fn class_of_retry(p: &dyn Prop, sc: &Scenario, tries: usize) -> Result<(Option<(String, String)>, usize), String> {
+    for t in 0..tries {
+        if let Some(v) = class_of(p, sc)? {
+            return Ok((Some(v), t + 1));
+        }
+    }
+    Ok((None, tries))
+}
+
 fn shrink_cmd(args: &[String]) -> Result<i32, String> {
     // shrink <ID> <seed> <run> <out>
     let id = &args[2];
@@ -583,10 +595,27 @@ fn shrink_cmd(args: &[String]) -> Result<i32, String> {
     let p = prop(id)?;
     crate::quiet_panics();
     let sc = p.gen(run_seed(seed, id, run));
-    let Some((class, _)) = class_of(p.as_ref(), &sc)? else {
-        println!("run {run} does not fail when re-executed from its seed");
+    let (first, attempts) = class_of_retry(p.as_ref(), &sc, 12)?;
+    let Some((class, detail0)) = first else {
+        println!("run {run} does not fail when re-executed from its seed (12 attempts)");
         return Ok(3);
     };
+    if attempts > 1 {
+        // flaky under identical simulated conditions: the code under test has nondeterminism the simulator does not
+        // own (real threads, clocks). That is itself reportable; the scenario is kept unshrunk.
+        let scj = sc.to_j();
+        let j = J::obj()
+            .set("property", J::s(id))
+            .set("seed", J::Int(seed as i64))
+            .set("run", J::Int(run as i64))
+            .set("class", J::s(&class))
+            .set("witness", J::s(format!("{:016x}", hash_str(&scj.to_string()))))
+            .set("detail", J::s(format!("NOT REPRODUCIBLE ON EVERY EXECUTION (failed on attempt {attempts} of the same scenario): the code under test behaves nondeterministically under identical simulated conditions. {detail0}")))
+            .set("flaky", J::Bool(true))
+            .set("scenario", scj);
+        std::fs::write(out, j.pretty()).map_err(|e| format!("{out}: {e}"))?;
+        return Ok(0);
+    }
     let (min, evals) = match &sc {
         Scenario::Session(s) => {
             let mut pred = |c: &crate::session::Session| -> bool {
@@ -646,7 +675,8 @@ fn replay_cmd(args: &[String]) -> Result<i32, String> {
             std::process::exit(1);
         });
     }
-    match class_of(p.as_ref(), &sc)? {
+    let tries = if matches!(j.get("flaky"), Some(J::Bool(true))) { 40 } else { 1 };
+    match class_of_retry(p.as_ref(), &sc, tries)?.0 {
         Some((class, detail)) => {
             println!("REPLAYED class={class}");
             println!("{detail}");
